@@ -130,6 +130,8 @@ def gen_options(r, s):
             lim["ts_end"] = r.choice(starts) + r.choice([0.0, 0.5, 300.0])
         d["limit"] = lim
         o += ["--event_limit", json.dumps(lim)]
+    if len(s.files) >= 2 and r.random() < 0.1:
+        d["collide"] = True      # two input files of the run share a job id (file names chosen when written)
     if r.random() < 0.25:
         d["filter"] = r.choice(["name:Exec$", "name:^HostFn_[01]", "args.uid:[37]$", "args.note:^1", "comment:note",
                                 "name:Exec$,args.uid:2$", "name:DmaO$"])
@@ -167,7 +169,8 @@ def input_events(s):
 
 
 def run_case(s, opts, desc, work, atoms, record=True):
-    inp = scenario.write(s, os.path.join(work, "in"))
+    shutil.rmtree(os.path.join(work, "in"), ignore_errors=True)
+    inp = scenario.write(s, os.path.join(work, "in"), collide=desc.get("collide", False))
     out = os.path.join(work, "out", "o.json")
     shutil.rmtree(os.path.join(work, "out"), ignore_errors=True)
     os.makedirs(os.path.join(work, "out"))
